@@ -20,9 +20,9 @@ import (
 	"verifharness/vk"
 )
 
-const rule = "tag sets over a 238-name universe (1-4 segments of {aaa,bb,c1}, with/without leading underscore) x up to 4 loggers + optional root with literal/wildcard tag lists; ~35% with one injected fault (duplicate string in two loggers, tags on root, empty tag list, malformed wildcard); non-trivial = some registered tag has >=2 candidates (literal+wildcard or two wildcard depths) belonging to different loggers, or a fault case; distinct by (tag lists, registered set size)"
+const rule = "tag sets over a ~680-name universe (1-4 segments of {aaa,aa,bb,c1}: one segment is a string prefix of another, with/without leading underscore) x up to 4 loggers + optional root with literal/wildcard tag lists; ~35% with one injected fault (duplicate string in two loggers, tags on root, empty tag list, malformed wildcard); non-trivial = some registered tag has >=2 candidates (literal+wildcard or two wildcard depths) belonging to different loggers, or a fault case; distinct by (tag lists, registered set size)"
 
-var segs = []string{"aaa", "bb", "c1"}
+var segs = []string{"aaa", "aa", "bb", "c1"} // "aa" is a string prefix of "aaa": a matcher that forgets the underscore boundary is exposed
 
 var universe = func() []string {
 	var out []string
